@@ -176,11 +176,14 @@ def run_transform(sc):
     # Gaussians and mixtures
     for label, comps in sets:
         iq = gauss_iq(q, comps)
+        iq0 = iq.copy()
         try:
             P = np.asarray(T.apply(iq), dtype="d")
-            r = {"raised": False, "error": "", "P": fvec(P), "Is": fvec(iq[sidx])}
+            # the caller's I(q) array after the call (a caller may transform the same array again)
+            r = {"raised": False, "error": "", "P": fvec(P), "Is": fvec(iq0[sidx]),
+                 "changed": bool(iq.shape != iq0.shape or iq.tobytes() != iq0.tobytes())}
         except Exception as ex:
-            r = {"raised": True, "error": err_text(ex), "P": [], "Is": fvec(iq[sidx])}
+            r = {"raised": True, "error": err_text(ex), "P": [], "Is": fvec(iq0[sidx]), "changed": False}
         emit({"tid": tid, "ev": "Gauss", "args": {"label": label, "comps": comps_json(comps), "via": "apply"}, "res": r})
 
     # linearity
